@@ -122,175 +122,3 @@ Fixpoint ownedb_from (own : list nat) (h : heap) (g : nat) : bool :=
                && ownedb_from own r (S g)
   end.
 Definition ownedb (h : heap) : bool := ownedb_from (ctx_targets h) h 0.
-
-(* ================================================================== *)
-(* Builder / runtime operations as graph updates.  Every function here
-   corresponds to one place in /repo that creates, clones, moves or drops a
-   reference; the simulation that calls them is Own/Model.v. *)
-
-Definition with_hp (s : st) (h : heap) : st := {| hp := h; freed := freed s; bad := bad s |}.
-Definition st_alloc (s : st) (t : tag) : st * nat := (with_hp s (fst (alloc (hp s) t)), snd (alloc (hp s) t)).
-Definition st_edge (s : st) (src : nat) (k : ekind) (t : nat) : st := with_hp s (add_edge (hp s) src k t).
-Definition st_root (s : st) (t : nat) : st := with_hp s (add_root (hp s) t).
-Definition st_move_in (s : st) (src : nat) (k : ekind) (t : nat) : st := with_hp s (move_in (hp s) src k t).
-Definition st_move_out (s : st) (src : nat) (k : ekind -> bool) : st * option nat :=
-  (with_hp s (fst (move_out (hp s) src k)), snd (move_out (hp s) src k)).
-Definition st_weak (s : st) (src : nat) (l : N) (t : nat) : st := with_hp s (add_weak (hp s) src l t).
-
-(* take the handle to [t] out of [src] (VecDeque::pop_front / Vec::remove / Option::take) *)
-Fixpoint take_to (t : nat) (es : list edge) : option (list edge) :=
-  match es with
-  | [] => None
-  | e :: r => if Nat.eqb (et e) t then Some r
-              else match take_to t r with Some r' => Some (e :: r') | None => None end
-  end.
-Definition st_take_to (s : st) (src t : nat) : st * bool :=
-  match nth_error (hp s) src with
-  | Some so => match take_to t (strong so) with
-               | Some r => (with_hp s (upd (hp s) src (set_strong so r)), true)
-               | None => (s, false)
-               end
-  | None => (s, false)
-  end.
-(* ... and drop it *)
-Definition st_drop_edge (s : st) (src t : nat) : st :=
-  let r := st_take_to s src t in if snd r then release (fst r) t else fst r.
-
-(* Sim::new (runtime/mod.rs:165-177): Globals::default() allocates the module
-   tree; Sim keeps one handle to each *)
-Definition new_sim (s : st) : st * nat * nat :=
-  let '(s1, tree) := st_alloc s TTree in
-  let '(s2, glob) := st_alloc s1 TGlobals in
-  let s3 := st_edge s2 glob (KField 0) tree in     (* Globals.modules *)
-  let s4 := st_root s3 tree in                     (* Sim.modules = globals.modules.clone() *)
-  let s5 := st_root s4 glob in                     (* Sim.globals *)
-  (s5, tree, glob).
-
-(* SimBuilder::raw (runtime/mod.rs): ModuleContext::standalone / child_of
-   (ctx/mod.rs:81-145), ModuleRef::new (refs.rs:60-75), ModuleTree::add.
-   Returns ctx, proc, queue.  [elems]: payloads of the processing elements. *)
-Definition new_module (s : st) (tree : nat) (parent : option (nat * nat)) (depth : nat) (state : N) (elems : list N)
-  : st * nat * nat * nat :=
-  let '(s1, ctx) := st_alloc s (TCtx depth) in
-  let '(s2, q) := st_alloc s1 TQueue in
-  let s3 := st_edge s2 ctx (KField 2) q in                     (* AsyncCoreExt::new: driver: Some(Driver::new()) *)
-  let '(s4, proc) := st_alloc s3 (TProc state) in
-  let s5 := fold_left (fun sa e => let '(sb, el) := st_alloc sa (TElem e) in st_edge sb proc (KField 0) el) elems s4 in
-  let s6 := st_weak (st_weak s5 ctx 0 ctx) ctx 1 proc in       (* ctx.me *)
-  let s7 := match parent with
-            | Some (pc, pp) =>
-                let sa := st_weak (st_weak s6 ctx 2 pc) ctx 3 pp in               (* ctx.parent *)
-                st_edge (st_edge sa pc (KField 3) ctx) pc (KField 4) proc         (* parent.children.insert(name, this.clone()) *)
-            | None => s6
-            end in
-  let s8 := st_edge (st_edge s7 tree (KField 0) ctx) tree (KField 1) proc in      (* mods.add(ctx.clone()) *)
-  (s8, ctx, proc, q).
-
-(* ModuleRef::create_raw_gate (refs.rs:278-282): Gate::new + gates.push(gate.clone()) *)
-Definition new_gate (s : st) (ctx proc : nat) : st * nat :=
-  let '(s1, g) := st_alloc s TGate in
-  let s2 := st_weak (st_weak s1 g 0 ctx) g 1 proc in           (* Gate.owner *)
-  (st_edge s2 ctx (KField 0) g, g).
-
-Definition conn_count (h : heap) (g : nat) : N :=
-  N.of_nat (length (filter (fun e => kconn (ek e)) (edges_of h g))).
-Definition connected_to (h : heap) (g t : nat) : bool :=
-  existsb (fun e => kconn (ek e) && Nat.eqb (et e) t) (edges_of h g).
-
-(* Gate::connect (gate.rs:262-297).  Returns the two channel objects if a channel was given:
-   the duplicate stored at [a] (direction a -> b) and the original stored at [b]. *)
-Definition connect (s : st) (a b : nat) (chan : bool) : st * option (nat * nat) :=
-  if Nat.eqb a b then (s, None)                                   (* assert: panics before anything changes *)
-  else if connected_to (hp s) a b then (s, None)                  (* already connected: return *)
-  else
-    let pa := conn_count (hp s) a in
-    let pb := conn_count (hp s) b in
-    if (2 <=? pa)%N || (2 <=? pb)%N then (s, None)                (* assert: panics before anything changes *)
-    else
-      let s1 := st_edge s a (KConn pa pb) b in                    (* conns.put(Connection { endpoint: other.clone(), endpoint_id: other_conns_pos, .. *)
-      let '(s2, chs) :=
-        if chan then
-          let '(sa, c1) := st_alloc s1 TChannel in                (* ch1 = Arc::new(c.dup()) *)
-          let sb := st_edge sa a (KConnCh pa) c1 in
-          let '(sc, c2) := st_alloc sb TChannel in                (* ch2 = channel *)
-          (sc, Some (c1, c2))
-        else (s1, None) in
-      let s3 := st_edge s2 b (KConn pb pa) a in                   (* other_conns.put(Connection { endpoint: self.clone(), endpoint_id: conns_pos, .. *)
-      let s4 := match chs with Some (_, c2) => st_edge s3 b (KConnCh pb) c2 | None => s3 end in
-      (s4, chs).
-
-(* connections[idx] of gate g: peer, slot used at the peer, channel *)
-Definition conn_at (h : heap) (g : nat) (idx : N) : option (nat * N * option nat) :=
-  match find (fun e => match ek e with KConn s _ => N.eqb s idx | _ => false end) (edges_of h g) with
-  | Some e =>
-      let eid := match ek e with KConn _ i => i | _ => 0%N end in
-      let ch := match find (fun e => match ek e with KConnCh s => N.eqb s idx | _ => false end) (edges_of h g) with
-                | Some c => Some (et c) | None => None end in
-      Some (et e, eid, ch)
-  | None => None
-  end.
-
-(* a new message held by a local variable *)
-Definition new_msg (s : st) (pay : N) : st * nat :=
-  let '(s1, m) := st_alloc s (TMsg pay) in (st_root s1 m, m).
-
-(* msg.header.last_gate = Some(gate.clone()) (events.rs:66,76): the old value is dropped *)
-Definition set_last_gate (s : st) (m g : nat) : st :=
-  let '(s1, old) := st_move_out s m (fun k => kf k 0) in
-  let s2 := st_edge s1 m (KField 0) g in
-  match old with Some o => release s2 o | None => s2 end.
-
-(* a new event value held by whoever builds it *)
-Definition new_event (s : st) (kind : N) : st * nat :=
-  let '(s1, e) := st_alloc s (TEvent kind) in (st_root s1 e, e).
-
-(* HandleMessageEvent { module: <ModuleRef clone>, message } (events.rs:121-127, runtime/ctx.rs:100-106) *)
-Definition ev_handle (s : st) (ctx proc msg : nat) : st * nat :=
-  let '(s1, e) := new_event s 1 in
-  (st_move_in (st_edge (st_edge s1 e (KField 3) ctx) e (KField 4) proc) e (KField 2) msg, e).
-(* ModuleRestartEvent / AsyncWakeupEvent { module: module.clone() } *)
-Definition ev_module (s : st) (kind : N) (ctx proc : nat) : st * nat :=
-  let '(s1, e) := new_event s kind in
-  (st_edge (st_edge s1 e (KField 3) ctx) e (KField 4) proc, e).
-(* ChannelUnbusyNotif { channel: self.clone() } (channel.rs:227-232) *)
-Definition ev_unbusy (s : st) (ch : nat) : st * nat :=
-  let '(s1, e) := new_event s 2 in (st_edge s1 e (KField 1) ch, e).
-(* MessageExitingConnection { con: Connection { endpoint, channel }, msg } (channel.rs:237-247, runtime/mod.rs:600-603) *)
-Definition ev_exit (s : st) (gate : nat) (ch : option nat) (msg : nat) : st * nat :=
-  let '(s1, e) := new_event s 0 in
-  let s2 := st_edge s1 e (KField 0) gate in
-  let s3 := match ch with Some c => st_edge s2 e (KField 1) c | None => s2 end in
-  (st_move_in s3 e (KField 2) msg, e).
-
-(* Buffer::enqueue (channel.rs:41-49); [pin]: the connection keeps `channel: Some(self)` (before 6ce5d8e) *)
-Definition enqueue (pin : bool) (s : st) (ch msg gate : nat) : st :=
-  let s1 := st_move_in s ch (KField 0) msg in
-  let s2 := st_edge s1 ch (KField 1) gate in
-  if pin then st_edge s2 ch (KField 2) ch else s2.
-(* Buffer::dequeue (channel.rs:51-55): the message moves out, the connection's handles are dropped
-   when `send_message` has rebuilt the connection *)
-Definition dequeue (pin : bool) (s : st) (ch : nat) : st * option nat :=
-  let '(s1, m) := st_move_out s ch (fun k => kf k 0) in
-  let '(s2, g) := st_move_out s1 ch (fun k => kf k 1) in
-  let s3 := match g with Some g => release s2 g | None => s2 end in
-  let s4 := if pin then match st_move_out s3 ch (fun k => kf k 2) with
-                        | (sa, Some c) => release sa c
-                        | (sa, None) => sa end
-            else s3 in
-  (s4, m).
-
-(* tokio::spawn: the runtime owns the future *)
-Definition new_task (s : st) (rt : nat) (cap : N) : st * nat :=
-  let '(s1, t) := st_alloc s (TTask cap) in (st_edge s1 rt (KField 0) t, t).
-
-(* TimerQueue::add, Err(insert_at) branch (driver.rs:116-127): TimerSlot::new(time, <handle to self>),
-   pending.insert(.., Arc::new(slot)) *)
-Definition new_slot (pin : bool) (s : st) (q : nat) : st * nat :=
-  let '(s1, sl) := st_alloc s TSlot in
-  let s2 := st_edge s1 q (KField 0) sl in
-  (* the slot's way back to its queue: Arc::downgrade(self) (driver.rs:117); self.clone() before 012bc88 *)
-  (if pin then st_edge s2 sl (KField 0) q else st_weak s2 sl 0 q, sl).
-
-(* a fresh tokio runtime for a module: Rt::current (rt.rs:79-93) / AsyncCoreExt::reset (rt.rs:67-77) *)
-Definition new_runtime (s : st) (ctx : nat) : st * nat :=
-  let '(s1, r) := st_alloc s TRuntime in (st_edge s1 ctx (KField 1) r, r).
